@@ -82,6 +82,7 @@ impl<R> Reader<R> {
             final(self).bufpos() >= old(self).bufpos(),
             // C03: after Eof (and after any error that ended the document) every further call returns Eof
             old(self).state.state is Done ==> (r matches Ok(Event::Eof)) && final(self).state == old(self).state,
+            stack_effect(old(self).state, final(self).state, r),
     {
         let ghost pre = self.state;
         let ghost rem = self.reader.remaining();
@@ -99,6 +100,7 @@ impl<R> Reader<R> {
                 measure(self.state, self.reader.remaining()) <= measure(pre, rem),
                 self.state.state is InsideText ==> (pre.state is Init || pre.state is InsideText),
                 self.state.state is Init ==> pre.state is Init,
+                self.state.same_stack(&pre),
                 !(pre.state is Init || pre.state is InsideText) ==> self.state == pre && self.reader.remaining() == rem,
                 self.state.offset >= pre.offset,
                 self.reader.remaining().len() <= rem.len(),
@@ -246,6 +248,9 @@ impl<R> Reader<R> {
                     reveal(arm_post); reveal(text_post); reveal(io_fail); reveal(markup_post);
                 }
                 assert(self.reader.remaining().len() <= grem.len()) by {
+                    reveal(arm_post); reveal(text_post); reveal(io_fail); reveal(markup_post);
+                }
+                assert(stack_effect(gcur, self.state, event)) by {
                     reveal(arm_post); reveal(text_post); reveal(io_fail); reveal(markup_post);
                 }
                 assert(event matches Ok(ev) ==> ev_wf(ev)) by {
